@@ -13,6 +13,8 @@ def run(tier):
                   'downstream chain reaches the outlet through cells that are not inlets',
                   'the step from the two proved post-conditions of c_delineate_area#reach (SOUND, CLOSED) to "listed <=> reaches the outlet" is an induction '
                   'external to the SMT proof; its Lean proof (lean/Reach.lean, theorem listed_iff_reach) is re-checked by the thorough tier')
+    r.assumptions += ['c_delineate_area#once: the grid is assumed to have no flow cycle (a height function strictly decreasing along the downstream relation exists); on cyclic grids "listed once" is covered by the bounded monitor only',
+                      'c_delineate_area#reach / #once: the ESRI direction table and a result vector pre-filled with -1 are preconditions (grid.py provides both; checked at kernel entry by the bounded monitor mon_area)']
     r.explanation = ('proved (Engine C): upstream/downstream contracts and the lemma that they are inverse relations (updown_inverse, nbr_mirror); '
                      'c_delineate_area#reach: on success every listed cell is the outlet or a non-inlet cell whose downstream cell is the outlet or listed earlier, '
                      'every non-inlet cell draining into the outlet or a listed cell is listed, the outlet is listed when anything is, the rest of the vector keeps -1 '
